@@ -59,7 +59,10 @@ def run(chk):
                 "commitment as a base, which commitments are left-hand sides of range proofs) under a RE-PROVING adversary that sends commitments as 0 modulo the group prime "
                 "and hashes the zeros the verifier will reconstruct; invariant Sound (accept => safe-prime product and square bases), violated without the nonzero guard (D29) and without the tie between the multiplier of an "
                 "expStepB step and the committed base power (D33: with free multipliers both exponentiation chains of the primality proof reach +1 / -1 for a COMPOSITE (P-1)/2 "
-                "that is committed honestly - all commitments nonzero). "
+                "that is committed honestly - all commitments nonzero); without a group order wide enough for the square of an |n|-bit root (D49, KNOWN FINDING: the model checks the design "
+                "the property demands, GroupWide = TRUE, and shows that the code as it is, GroupWide = FALSE, violates Sound; the forgery - roots of s + j*M for non-square bases of a genuine "
+                "340-bit modulus - is replayed and reported as KNOWN-FINDING); and with generators that do not depend on the prover's group prime (D50: a prime dividing a^30 - b^31 "
+                "gives log_g h). "
                 "Replay: every scenario is built for real by a cheating prover inside the package (tag verif) for the representatives 0, GroupPrime, 2*GroupPrime - a modulus "
                 "(2a^3+1)(2b+1) and bases with Jacobi symbol -1 - sent through JSON and given to the unmodified VerifyProof. (4) ZkProof.tla (Group variant): the representation-proof engine of the Camenisch-Michels sub-proofs in the concrete group "
                 "zkproof.BuildGroup(23) - Pedersen, multiplication-type, constant-left-hand-side and single-base statements with prover-supplied bases over all residues "
@@ -108,7 +111,8 @@ def run(chk):
     # the re-proving adversary with degenerate commitments (KeyProofDeps.tla)
     r = vplib.tlc_mc("KeyProofDeps", "KeyProofDeps.mc.cfg", timeout=600)
     chk.add_tlc(r, "KeyProofDeps", "KeyProofDeps.mc.cfg", "Sound, Honest over every set of zeroed commitments, every lie and every assignment of false relations")
-    for probe in ("KeyProofDeps.asis.cfg", "KeyProofDeps.asis2.cfg"):       # without the nonzero guard (D29) / without the tie of the multipliers (D33)
+    # without the nonzero guard (D29) / the tie of the multipliers (D33) / a group wide enough for squares of n-bit roots (D49, the code AS IT IS) / derived generators (D50)
+    for probe in ("KeyProofDeps.asis.cfg", "KeyProofDeps.asis2.cfg", "KeyProofDeps.asis3.cfg", "KeyProofDeps.asis4.cfg"):
         r = vplib.tlc("KeyProofDeps", probe, timeout=300, allow_fail=True)
         if "Sound" not in r.invariant_violated:
             raise vplib.Machinery("KeyProofDeps: %s should violate Sound (vacuity)" % probe)
@@ -121,7 +125,7 @@ def run(chk):
     open(sp, "w").write("\n".join(scen) + "\n")
     res = vplib.vh("kp", ["zeroforge", "--in", sp, "--tier", T, "--seed", seed], timeout=3000)
     c = res.get("counts", {})
-    if not res["violations"] and (c.get("zeroforge:spec=true:code=true", 0) < 1 or c.get("zeroforge:spec=false:code=false", 0) < 30):
+    if not res["violations"] and (c.get("zeroforge:spec=true:code=true", 0) < 1 or c.get("zeroforge:spec=false:code=false", 0) < 30 or not res.get("known_or_violation_kinds_seen", True)):
         raise vplib.Machinery("zero-commitment replay is vacuous: %s" % c)
     chk.add_replay(res, "zero_commitment_forgeries")
     # the representation-proof engine underneath, in a concrete toy group (ZkProof.tla)
